@@ -447,8 +447,8 @@ func (v *Val) hasNull() bool {
 var (
 	plainKeys   = []string{"a", "b", "c", "d", "id", "name", "x", "y"}
 	awkwardKeys = []string{"", "a/b", "~t", "0", "-", "ü", "k e", "a~1b", "1e3", "true", "null", "a.b", "\"q\""}
-	plainStrs   = []string{"a", "b", "c", "foo", "bar", "x y"}
-	awkwardStrs = []string{"line one\nline two\n", "tail\n", strings.Repeat("日本語のテキスト", 5), strings.Repeat("Привет мир ", 4), strings.Repeat("é", 70), "", "\"", "\\", "\n", "\t", "\u0001", "é", "日本", "😀", "<>&", "a\nb", "true", "1", "1e3", "~", "null", "- x", "a: b", "#", " lead", "trail ", "@ [", "+ 1", "^ {}"}
+	plainStrs   = []string{"a", "b", "c", "foo", "bar", "x y", "50%"}
+	awkwardStrs = []string{"90%", "%s %d %v", "100%!", "line one\nline two\n", "tail\n", strings.Repeat("日本語のテキスト", 5), strings.Repeat("Привет мир ", 4), strings.Repeat("é", 70), "", "\"", "\\", "\n", "\t", "\u0001", "é", "日本", "😀", "<>&", "a\nb", "true", "1", "1e3", "~", "null", "- x", "a: b", "#", " lead", "trail ", "@ [", "+ 1", "^ {}"}
 	symbols     = []float64{1, 2, 3}
 )
 
@@ -667,7 +667,14 @@ func edit(c *Chooser, g GenCfg, v *Val) *Val {
 	}
 	n := cs[c.Int(len(cs))]
 	if n.K == 'o' {
-		switch c.Pick(3, 3, 3, 1) {
+		switch c.Pick(3, 3, 3, 1, 2) {
+		case 4: // two keys exchange their values
+			if len(n.Keys) >= 2 {
+				i, j := c.Int(len(n.Keys)), c.Int(len(n.Keys))
+				if (n.Keys[i] != "id" && n.Keys[j] != "id") || !g.UniqueIDs {
+					n.Vals[i], n.Vals[j] = n.Vals[j], n.Vals[i]
+				}
+			}
 		case 0: // add key
 			n.set(genKey(c, g), genVal(c, g, g.MaxDepth-1))
 		case 1: // remove key
